@@ -810,9 +810,9 @@ class ParameterSpace(DesignSpace):
             msg = "x_vect must be either a 1D or a 2D NumPy array."
             raise ValueError(msg)
 
-        return self.__unnormalize_vect(x_vect, minus_lb, no_check)
+        return self.__unnormalize_vect(x_vect, minus_lb, no_check, out)
 
-    def __unnormalize_vect(self, x_vect, minus_lb, no_check):
+    def __unnormalize_vect(self, x_vect, minus_lb, no_check, out):
         data_names = self._variables.keys()
         data_sizes = self.variable_sizes
         x_u_geom = super().unnormalize_vect(
@@ -826,7 +826,12 @@ class ParameterSpace(DesignSpace):
         for name in missing_names:
             x_u[name] = x_u_geom[name]
 
-        return concatenate_dict_of_arrays_to_array(x_u, data_names)
+        x_u = concatenate_dict_of_arrays_to_array(x_u, data_names)
+        if out is None:
+            return x_u
+
+        out[...] = x_u
+        return out
 
     def transform_vect(  # noqa:D102
         self,
@@ -881,9 +886,9 @@ class ParameterSpace(DesignSpace):
             msg = "x_vect must be either a 1D or a 2D NumPy array."
             raise ValueError(msg)
 
-        return self.__normalize_vect(x_vect, minus_lb)
+        return self.__normalize_vect(x_vect, minus_lb, out)
 
-    def __normalize_vect(self, x_vect, minus_lb):
+    def __normalize_vect(self, x_vect, minus_lb, out):
         data_names = self._variables.keys()
         data_sizes = self.variable_sizes
         dict_sample = split_array_to_dict_of_arrays(x_vect, data_sizes, data_names)
@@ -894,7 +899,12 @@ class ParameterSpace(DesignSpace):
         for name in missing_names:
             x_n[name] = x_n_geom[name]
 
-        return concatenate_dict_of_arrays_to_array(x_n, data_names)
+        x_n = concatenate_dict_of_arrays_to_array(x_n, data_names)
+        if out is None:
+            return x_n
+
+        out[...] = x_n
+        return out
 
     @property
     def deterministic_variables(self) -> list[str]:
